@@ -212,6 +212,21 @@ loop:
 				out = r
 				break loop
 			}
+			if s.Msg != "" {
+				// compound assignment `x op= e` is `x := x op e`
+				cur, ok := env.get(s.Str)
+				if !ok || cur.T != "int" || r.v.T != "int" {
+					return m.giveUp("compound assignment on unknown")
+				}
+				switch s.Msg {
+				case "+":
+					r.v = vInt(cur.I + r.v.I)
+				case "-":
+					r.v = vInt(cur.I - r.v.I)
+				case "*":
+					r.v = vInt(cur.I * r.v.I)
+				}
+			}
 			env.vars[s.Str] = r.v
 			out = norm(r.v)
 		case KExprS:
@@ -811,7 +826,17 @@ func (m *Model) propCall(n *N, env *MEnv) res {
 		m.nfDepth++
 		defer func() { m.nfDepth-- }()
 	}
-	recv := m.ev("chain"+n.Chain.String()+"/recv", n.A, env)
+	var recv res
+	if n.A == nil {
+		// anonymous chain: the receiver is the current function's first argument
+		v, ok := env.get("self")
+		if !ok {
+			return m.giveUp("anonymous chain outside a method")
+		}
+		recv = norm(v)
+	} else {
+		recv = m.ev("chain"+n.Chain.String()+"/recv", n.A, env)
+	}
 	if recv.c == cRaise {
 		return recv
 	}
